@@ -50,6 +50,21 @@ func c12Schema(depth int) map[string]any {
 	return cur
 }
 
+// c12SchemaBefore: what the tool looked like before it was replaced - the same shape with other header
+// bindings (p bound to another header name, q not bound at all, s bound where the final schema binds nothing)
+func c12SchemaBefore(depth int) map[string]any {
+	sc := c12Schema(depth)
+	cur := sc
+	for i := 1; i < depth; i++ {
+		cur = cur["properties"].(map[string]any)[fmt.Sprintf("o%d", i)].(map[string]any)
+	}
+	props := cur["properties"].(map[string]any)
+	props["p"] = map[string]any{"type": "string", "x-mcp-header": "OldP"}
+	props["q"] = map[string]any{"type": "integer"}
+	props["s"] = map[string]any{"type": "string", "x-mcp-header": "S"}
+	return sc
+}
+
 func c12Args(depth int, leafVals map[string]any) map[string]any {
 	cur := leafVals
 	for i := depth - 1; i >= 1; i-- {
@@ -125,7 +140,7 @@ func c12Agreement(t *testing.T, cases *verifx.Cases) {
 		}
 	}
 	// the same call when the client has not (or no longer) the tool's definition at hand
-	for _, knowledge := range []string{"never-listed", "list-invalidated", "paged-1/call-first", "paged-1/call-last", "paged-2/call-first", "paged-2/call-middle", "paged-1/relist-first-page/call-last", "paged-2/relist-first-page/call-last"} {
+	for _, knowledge := range []string{"replaced-after-a-call", "never-listed", "list-invalidated", "paged-1/call-first", "paged-1/call-last", "paged-2/call-first", "paged-2/call-middle", "paged-1/relist-first-page/call-last", "paged-2/relist-first-page/call-last"} {
 		for depth := 1; depth <= 2; depth++ {
 			for _, leaf := range []map[string]any{{"s": "plain"}, {"s": "plain", "p": "a"}, {"s": "plain", "p": "ü", "q": 7, "r": true}} {
 				idx, mine := cases.Next()
@@ -176,7 +191,11 @@ func c12AgreementCase(depth int, args map[string]any, desc string, knowledge str
 	}
 	s := NewServer(&Implementation{Name: "srv", Version: "1"}, sopts)
 	for _, name := range []string{"t", "u", "v", "w", "x"}[:nTools] {
-		s.AddTool(&Tool{Name: name, InputSchema: c12Schema(depth)}, func(ctx context.Context, r *CallToolRequest) (*CallToolResult, error) {
+		schema := c12Schema(depth)
+		if knowledge == "replaced-after-a-call" {
+			schema = c12SchemaBefore(depth)
+		}
+		s.AddTool(&Tool{Name: name, InputSchema: schema}, func(ctx context.Context, r *CallToolRequest) (*CallToolResult, error) {
 			if name == target {
 				got = append(got, r.Params.Arguments)
 			}
@@ -222,6 +241,23 @@ func c12AgreementCase(depth int, args map[string]any, desc string, knowledge str
 		})
 		time.Sleep(time.Second)
 		synctest.Wait()
+	}
+	if knowledge == "replaced-after-a-call" {
+		// the tool is called once as it was, then replaced by one of the same name with other header bindings;
+		// the client handles the list-changed notification and lists again
+		if r0, err := cs.CallTool(ctx, &CallToolParams{Name: target, Arguments: args}); err != nil || r0.IsError {
+			return "c12 agreement legitimate-call-rejected before-replacement", fmt.Sprintf("the call before the replacement was rejected: %v %+v [%s]", err, r0, desc)
+		}
+		got = nil
+		s.AddTool(&Tool{Name: target, InputSchema: c12Schema(depth)}, func(ctx context.Context, r *CallToolRequest) (*CallToolResult, error) {
+			got = append(got, r.Params.Arguments)
+			return &CallToolResult{}, nil
+		})
+		time.Sleep(time.Second)
+		synctest.Wait()
+		if lr, err := cs.ListTools(ctx, nil); err != nil || len(lr.Tools) != 1 {
+			return "c12 agreement tool-not-listed", fmt.Sprintf("ListTools after the replacement: %v %v [%s]", lr, err, desc)
+		}
 	}
 	res, err := cs.CallTool(ctx, &CallToolParams{Name: target, Arguments: args})
 	if err != nil || res.IsError {
